@@ -57,6 +57,10 @@ CLAIMED = {
          "Exploration by generated search over failure class x nesting path x catch form x placement; exact output equality (none of a failed body's bytes, catch exactly once, identical rendering on success) and probes of '.', variables, isset of every name declared inside, yield content and following text.",
          "Trusts the reference interpreter. Assignments from inside a try body to variables declared outside are not generated (whether a failed body's assignments are rolled back is not specified).",
          'DESIGN.md section 5/C13'),
+ 'C12': ('property-based testing (rapid): generated template sets with exactly one failing action (72 kinds over every class the statement lists) at a generated file / line / nesting position; oracle = no panic + non-nil error + ("file":line) equal to the printer\'s ground truth for self-detected failures + writer content equal to the MiniJet reference interpreter\'s output up to the failing action',
+         'Exploration by generated search over failure class x file role (executed, included, imported block, extended layout, overriding block) x preceding content (multi-line text and comments, trim markers, same-line actions) x nesting depth; a replay tier holds one regression case per fixed defect.',
+         'Trusts the reference interpreter for the output prefix and the printer for line ground truth. Positions of errors raised inside called functions (exec of a missing template, len(1), ints(1), isset(), Panicf) are not checked; failing actions occupy a single line except the multi-line yield-with-content variant.',
+         'DESIGN.md section 5/C12'),
 }
 PENDING = {}
 
